@@ -99,3 +99,27 @@ Proof.
   exists row. split; [exact E|]. split; [rewrite L; apply repeat_length|].
   intros k Hk. rewrite F. rewrite nth_repeat. apply orb_false_r.
 Qed.
+
+(* ---- encode_genotypes_partition: the genotype trio --------------------------------------------------------------- *)
+(* cyvcf2 delivers, per sample, the allele numbers followed by the phase flag; the translated encoder hands the alleles to the
+   2-d integer sanitiser, the flags to the 1-d one, and derives the mask from the STORED alleles *)
+Lemma translated_genotype_split_lemma : forall (calls : list (list Z * Z)),
+  gen_gt_alleles (map (fun c => fst c ++ [snd c]) calls) = map fst calls /\
+  gen_gt_phase (map (fun c => fst c ++ [snd c]) calls) = map snd calls.
+Proof.
+  intros calls. unfold gen_gt_alleles, gen_gt_phase. rewrite !map_map. split; apply map_ext; intros [al ph]; cbn [fst snd].
+  - apply removelast_last.
+  - apply last_last.
+Qed.
+
+Lemma translated_genotype_mask_lemma : forall stored s k, 
+  nth k (nth s (gen_gt_mask stored) []) false = (nth k (nth s stored []) 0 <? 0)%Z \/ (length (nth s stored []) <= k)%nat \/ (length stored <= s)%nat.
+Proof.
+  intros stored s k. unfold gen_gt_mask.
+  destruct (Nat.lt_ge_cases s (length stored)) as [Hs|Hs]; [|right; right; exact Hs].
+  destruct (Nat.lt_ge_cases k (length (nth s stored []))) as [Hk|Hk]; [|right; left; exact Hk].
+  left. rewrite (nth_indep _ [] (map (fun a => (a <? 0)%Z) [])) by (rewrite map_length; exact Hs).
+  rewrite (map_nth (map (fun a => (a <? 0)%Z)) stored [] s).
+  rewrite (nth_indep _ false ((fun a => (a <? 0)%Z) 0%Z)) by (rewrite map_length; exact Hk).
+  rewrite (map_nth (fun a => (a <? 0)%Z)). reflexivity.
+Qed.
